@@ -1,31 +1,54 @@
 ----------------------------- MODULE SizingBulk -----------------------------
 (***************************************************************************)
-(* Design model of PMGRLaunchingComponent.work() (pmgr/launching/base.py): *)
-(* a bulk of pilots which name different platforms / access schemas is     *)
-(* sorted into (resource, schema) buckets (python dicts: insertion order), *)
-(* each bucket is resolved (Session.get_resource_config(resource, schema)),*)
-(* its pilots are prepared (_prepare_pilot) and submitted; a bucket whose   *)
-(* launch raises is advanced to FAILED, the others to PMGR_ACTIVE_PENDING.  *)
+(* Design model of PMGRLaunchingComponent.work() (pmgr/launching/base.py)  *)
+(* down to the launcher (pmgr/launching/psi_j.py, saga.py):                *)
+(* a bulk of pilots which name different platforms / access schemas and    *)
+(* are of different size is sorted into (resource, schema) buckets (python *)
+(* dicts: insertion order), each bucket is resolved                        *)
+(* (Session.get_resource_config(resource, schema)), its pilots are         *)
+(* prepared (_prepare_pilot), the first installed launcher which can       *)
+(* launch the resolved configuration is picked and is handed the pilots of *)
+(* the bucket; it submits ONE batch job PER PILOT.  A bucket whose launch  *)
+(* raises (no launcher, submission refused) is advanced to FAILED, the     *)
+(* others to PMGR_ACTIVE_PENDING.                                          *)
 (*                                                                         *)
 (* C17: a pilot description naming (platform, schema) is turned into a     *)
 (* batch job under exactly that pair - whatever else is in the bulk and in *)
-(* whatever order.  Ghost `under` records the pair each pilot was prepared *)
-(* under, `everFailed` the pilots ever reported FAILED.  TLC chooses the   *)
-(* bulk (2-3 pilots over a group of (platform, schema) choices, every      *)
-(* order) and the bucket whose submission fails (0 = none).                *)
+(* whatever order - and the job submitted for a pilot requests that        *)
+(* pilot's own size (nodes / cores / gpus), walltime / queue / project and *)
+(* carries that pilot's own arguments / sandbox / agent config - whichever *)
+(* launcher is picked and whatever else is in the bucket.                  *)
+(*                                                                         *)
+(* Ghosts: `under` the pair each pilot was prepared under, `everFailed`    *)
+(* the pilots ever reported FAILED, `via` the launcher a pilot was handed   *)
+(* to, `job` for every submitted pilot the pilots whose prepared figures   *)
+(* (res), terms and agent data the job was built from.                     *)
+(*                                                                         *)
+(* TLC chooses the bulk (1-3 pilots over a group of (platform, schema)     *)
+(* choices, every order), the size of each pilot (abstract size ids: a     *)
+(* different id is a different request in every respect; only the pattern  *)
+(* of equal / different matters, so the ids are canonical: the first pilot *)
+(* is size 1, a new size is the next id), the launchers installed, and the *)
+(* bucket whose submission is refused (0 = none).                          *)
 (***************************************************************************)
-EXTENDS Naturals, Sequences, FiniteSets, TLC
+EXTENDS SizingOps, TLC
 
 CONSTANTS Groups,         \* set of sets of choices <<platform, schema>> ("" = none named)
           SchemasOf,      \* [platform -> schemas the platform declares]
+          SchemeOf,       \* [choice -> parts of the URL scheme of its job manager endpoint]
+          PsijExecutors,  \* batch systems psij has an executor for
+          LauncherSets,   \* set of sequences: launchers the component holds, in the order it asks them
+          SizeIds,        \* 1 .. K
           BulkSizes,      \* numbers of pilots in a bulk
           PrintCases,
-          DevStaleSchema,   \* bucket resolved under the schema of the last pilot of the bulk
-          DevFailAll        \* a failing bucket fails all pilots of the call
+          DevStaleSchema,         \* bucket resolved under the schema of the last pilot of the bulk
+          DevFailAll,             \* a failing bucket fails all pilots of the call
+          DevSpecFromFirstPilot,  \* launcher builds the resource request once, from the first pilot it is handed
+          DevLauncherPerResource  \* launcher picked once per resource (first schema seen), not per (resource, schema)
 
-VARIABLES bulk, fail, buckets, pos, under, st, everFailed, phase
+VARIABLES bulk, size, lset, fail, buckets, pos, under, st, everFailed, via, job, phase
 
-vars == <<bulk, fail, buckets, pos, under, st, everFailed, phase>>
+vars == <<bulk, size, lset, fail, buckets, pos, under, st, everFailed, via, job, phase>>
 
 IsIn(x, s) == \E i \in 1 .. Len(s) : s[i] = x
 
@@ -46,15 +69,25 @@ BucketsOf(b) ==
                 Distinct(SelectSeq(b, LAMBDA c : c[1] = rs[k]))])
 
 Members(b, bk) == {i \in 1 .. Len(b) : b[i] = bk}
+MinOf(S)       == CHOOSE x \in S : \A y \in S : x <= y
 
 Bulks(g) == UNION {[1 .. n -> g] : n \in BulkSizes}
 
+\* canonical size patterns (restricted growth): 1, 11, 12, 111, 112, 121, 122, 123
+Canon(s) == \A i \in 1 .. Len(s) :
+              \/ s[i] = 1
+              \/ \E j \in 1 .. i - 1 : s[j] = s[i] \/ s[j] = s[i] - 1
+
 Init ==
   /\ \E g \in Groups : bulk \in Bulks(g)
+  /\ size \in {s \in [1 .. Len(bulk) -> SizeIds] : Canon(s)}
+  /\ lset \in LauncherSets
   /\ fail \in 0 .. Len(BucketsOf(bulk))
   /\ buckets = <<>> /\ pos = 0
   /\ under = [i \in 1 .. Len(bulk) |-> <<>>]
   /\ st = [i \in 1 .. Len(bulk) |-> "LAUNCHING_PENDING"]
+  /\ via = [i \in 1 .. Len(bulk) |-> "none"]
+  /\ job = [i \in 1 .. Len(bulk) |-> <<>>]
   /\ everFailed = {} /\ phase = "start"
 
 Sort ==
@@ -62,38 +95,70 @@ Sort ==
   /\ buckets' = BucketsOf(bulk) /\ pos' = 1
   /\ st' = [i \in 1 .. Len(bulk) |-> "LAUNCHING"]
   /\ phase' = "loop"
-  /\ (PrintCases => PrintT(<<"BULK", bulk, fail>>))
-  /\ UNCHANGED <<bulk, fail, under, everFailed>>
+  /\ (PrintCases => PrintT(<<"BULK", bulk, fail, size, lset,
+                              [i \in 1 .. Len(bulk) |-> Pick(lset, SchemeOf[bulk[i]], PsijExecutors)],
+                              [i \in 1 .. Len(bulk) |-> CHOOSE k \in 1 .. Len(buckets') : buckets'[k] = bulk[i]]>>))
+  /\ UNCHANGED <<bulk, size, lset, fail, under, everFailed, via, job>>
 
-\* one iteration of the loop over the buckets
+\* the launcher _start_pilot_bulk picks for the pilots of bucket bk
+PickFor(bk) ==
+  LET first == CHOOSE k \in 1 .. Len(buckets) :
+                 buckets[k][1] = bk[1] /\ \A m \in 1 .. k - 1 : buckets[m][1] # bk[1]
+      lk    == IF DevLauncherPerResource THEN buckets[first] ELSE bk
+  IN Pick(lset, SchemeOf[lk], PsijExecutors)
+
+\* one iteration of the loop over the buckets: resolve, prepare, pick, launch
 Launch ==
   /\ phase = "loop" /\ pos <= Len(buckets)
   /\ LET bk   == buckets[pos]
          mem  == Members(bulk, bk)
          sch  == IF DevStaleSchema THEN bulk[Len(bulk)][2] ELSE bk[2]
          res  == sch = "" \/ sch \in SchemasOf[bk[1]]        \* get_resource_config succeeds
-         bad  == ~res \/ pos = fail
+         l    == PickFor(bk)
+         bad  == ~res \/ l = "none" \/ pos = fail             \* _start_pilot_bulk raises
          hit  == IF DevFailAll THEN 1 .. Len(bulk) ELSE mem
+         head == MinOf(mem)                                   \* first pilot the launcher is handed
      IN /\ under' = [i \in 1 .. Len(bulk) |-> IF i \in mem /\ res THEN <<bk[1], sch>> ELSE under[i]]
+        /\ via'   = [i \in 1 .. Len(bulk) |-> IF i \in mem /\ res THEN l ELSE via[i]]
+        /\ job'   = [i \in 1 .. Len(bulk) |->
+                       IF i \in mem /\ ~bad
+                       THEN [res   |-> IF DevSpecFromFirstPilot THEN head ELSE i,
+                             terms |-> i, agent |-> i]
+                       ELSE job[i]]
         /\ st' = [i \in 1 .. Len(bulk) |->
                     IF bad THEN (IF i \in hit THEN "FAILED" ELSE st[i])
                     ELSE (IF i \in mem THEN "ACTIVE_PENDING" ELSE st[i])]
         /\ everFailed' = IF bad THEN everFailed \cup hit ELSE everFailed
   /\ pos' = pos + 1
   /\ phase' = IF pos = Len(buckets) THEN "done" ELSE "loop"
-  /\ UNCHANGED <<bulk, fail, buckets>>
+  /\ UNCHANGED <<bulk, size, lset, fail, buckets>>
 
 Next == Sort \/ Launch
 Spec == Init /\ [][Next]_vars
 
 TypeOK == phase \in {"start", "loop", "done"}
 
+Idx == 1 .. Len(bulk)
+
 \* every pilot is prepared under exactly the (platform, schema) it named
-InvSchemaOfPilot == \A i \in 1 .. Len(bulk) : under[i] # <<>> => under[i] = bulk[i]
-InvAllPrepared   == phase = "done" => \A i \in 1 .. Len(bulk) : under[i] # <<>>
-\* a launch failure of one bucket fails exactly the pilots of that bucket
+InvSchemaOfPilot == \A i \in Idx : under[i] # <<>> => under[i] = bulk[i]
+InvAllPrepared   == phase = "done" => \A i \in Idx : under[i] # <<>>
+\* a launch failure of one bucket fails exactly the pilots of that bucket; so does
+\* the lack of a launcher for the endpoint of a bucket
+NoLauncher(i) == Pick(lset, SchemeOf[bulk[i]], PsijExecutors) = "none"
 InvLaunchFailureLocal ==
   phase = "done" => everFailed = (IF fail = 0 THEN {} ELSE Members(bulk, buckets[fail]))
+                                 \cup {i \in Idx : NoLauncher(i)}
 InvOthersPending ==
-  phase = "done" => \A i \in 1 .. Len(bulk) : i \notin everFailed => st[i] = "ACTIVE_PENDING"
+  phase = "done" => \A i \in Idx : i \notin everFailed => st[i] = "ACTIVE_PENDING"
+\* a pilot is only handed to a launcher which can launch on its endpoint
+InvLauncherCan ==
+  \A i \in Idx : via[i] # "none" => CanLaunch(via[i], SchemeOf[bulk[i]], PsijExecutors)
+\* one job per launched pilot, none left out
+InvJobPerPilot ==
+  phase = "done" => \A i \in Idx : (i \notin everFailed) <=> (job[i] # <<>>)
+\* the job of a pilot requests that pilot's own size / terms and carries its own agent data
+InvJobSizedPerPilot == \A i \in Idx : job[i] # <<>> => size[job[i].res]   = size[i]
+InvJobTermsPerPilot == \A i \in Idx : job[i] # <<>> => size[job[i].terms] = size[i]
+InvJobShipsOwnAgent == \A i \in Idx : job[i] # <<>> => job[i].agent = i
 =============================================================================
